@@ -121,16 +121,23 @@ def run_M_to_E(u):
     prover = Prover(t_inproc_ms=10000, use_external=False)
     def run(ctx):
         dom = Real(); I = new_interp(dom, ctx); I.loop_bound = 2
+        events = []
+        orig_libm = dom.libm
+        def libm(name, args):
+            r = orig_libm(name, args)
+            if name in ('fmod', 'sin', 'sinh'): events.append((name, r if name == 'fmod' else args[0]))
+            return r
+        dom.libm = libm
         e, M = dom.fresh('e'), dom.fresh('M')
         ctx.assume(e > 1 if hyper else z3.And(e >= 0, e < 1))
         try:
             I.call('@reb_M_to_E', [e, M]); done = True
         except BoundExceeded:
             done = False
-        return I, dom, e, M, done
+        return I, dom, e, M, done, events
     ex = Explorer(run, max_paths=64, timeout_ms=3000); ex.explore()
     rep.queries += ex.nqueries; rep.solver_time += ex.qtime
-    for ctx, (I, dom, e, M, done) in ex.results:
+    for ctx, (I, dom, e, M, done, events) in ex.results:
         rep.paths += 1; rep.add_interp(I)
         ob = Obligations(rep, prover, label + "path%d " % rep.paths)
         def on_sat(model):
@@ -138,6 +145,19 @@ def run_M_to_E(u):
             g = nat().lib.reb_M_to_E; g.restype = ctypes.c_double; g.argtypes = [ctypes.c_double, ctypes.c_double]
             r = g(ev, Mv)
             return (r != r), 'C11:M_to_E:%s:M==%s' % ('hyperbolic' if hyper else 'elliptic', '0' if Mv == 0 else 'x'), "reb_M_to_E(e=%r, M=%r) = %r" % (ev, Mv, r), dict(kind='M_to_E', e=ev, M=Mv)
+        if not hyper:
+            # the anomaly handed to the iteration: result of the last fmod before the first sin (the code reduces M 'to avoid numerical
+            # artefacts for negative numbers'; the start values E = M resp. E = pi are only safe for a reduced anomaly in [0, 2 pi))
+            red = None
+            for nm, v in events:
+                if nm == 'sin': break
+                if nm == 'fmod': red = v
+            def on_sat_red(model):
+                bad, detail = native_kepler_grid()
+                return bad, 'C11:M_to_E:reduction', detail, dict(kind='M_to_E_grid')
+            from fractions import Fraction as _F
+            if red is None: ob.prove("the mean anomaly is reduced before the iteration", False, [], on_sat=on_sat_red, domain='control')
+            else: ob.prove("the reduced mean anomaly lies in [0, 2 pi) for EVERY M", z3.And(dom.z(red) >= 0, dom.z(red) < 2 * z3.RealVal(_F(math.pi))), list(ctx.pc), axioms=dom.axioms, on_sat=on_sat_red, domain='REAL + fmod (integer quotient)')
         seen = set()
         for b in dom.divs:
             if b.get_id() in seen: continue
@@ -146,6 +166,19 @@ def run_M_to_E(u):
             if 'cos' in str(b): continue
             ob.prove("no division by zero for any valid (e, M): denominator %s" % str(b)[:50], b != 0, list(ctx.pc), axioms=dom.axioms, on_sat=on_sat, domain='REAL')
     return rep
+
+def native_kepler_grid():
+    """native reb_M_to_E on a grid of bound orbits and (mostly negative, several revolutions) mean anomalies: Kepler's equation must hold"""
+    g = nat().lib.reb_M_to_E; g.restype = ctypes.c_double; g.argtypes = [ctypes.c_double, ctypes.c_double]
+    bad = []; n = 0
+    for e in (0.1, 0.5, 0.79, 0.8, 0.85, 0.9, 0.95, 0.99):
+        for k in range(4000):
+            M = -20.0 + 0.0085 * k
+            E = g(e, M); n += 1
+            res = math.fmod(E - e * math.sin(E) - M, 2 * math.pi)
+            res = min(abs(res), abs(abs(res) - 2 * math.pi))
+            if not res < 1e-9: bad.append((e, M, E, res))
+    return bool(bad), "native reb_M_to_E on %d (e, M) pairs with M in [-20, 14]: %s" % (n, ("%d do not satisfy Kepler's equation, first (e, M, E, residual) = %r" % (len(bad), bad[0])) if bad else "all satisfy Kepler's equation to 1e-9")
 
 def run_mod2pi(u):
     rep = Report(); rep.paths = 1
@@ -339,6 +372,7 @@ def worker(u):
 
 def replay(data):
     if data['kind'] == 'to_orbit': return native_to_orbit(data['cls'])
+    if data['kind'] == 'M_to_E_grid': return native_kepler_grid()
     if data['kind'] == 'M_to_E':
         g = nat().lib.reb_M_to_E; g.restype = ctypes.c_double; g.argtypes = [ctypes.c_double, ctypes.c_double]
         r = g(data['e'], data['M']); return (r != r), "reb_M_to_E(e=%r, M=%r) = %r" % (data['e'], data['M'], r)
